@@ -89,7 +89,7 @@ pub fn spurious_rejection_verdict(sec: &str, msg: &str, csv: &str, rows: &[HRow]
     Verdict::Fail(format!("history of {sec} contains none of the listed causes but was rejected: {msg}\n{csv}"))
 }
 
-fn check_accept(case: &LedgerCase, obs: &mut Obs) -> Verdict {
+pub fn check_accept(case: &LedgerCase, obs: &mut Obs) -> Verdict {
     let files = case.files();
     let csv = &files[0].1;
     let res = match run_deltas(&files, &case.run_opts()) {
@@ -252,7 +252,7 @@ pub fn money(s: &str) -> Option<Rat> {
     Rat::parse(t)
 }
 
-fn check_reject(c: &RejectCase, obs: &mut Obs) -> Verdict {
+pub fn check_reject(c: &RejectCase, obs: &mut Obs) -> Verdict {
     let case = &c.ledger;
     let files = case.files();
     let csv = &files[0].1;
